@@ -82,7 +82,7 @@ def check_one(rep, binary, case, prog, tmp):
                 rep.violation(f"C26:result_count:{base_name}|{name}:{icls}", f"yq {prog!r}: {len(base[1])} vs {len(val[1])} results", replay)
                 return
             for x, y in zip(base[1], val[1]):
-                if not cmp_equal(x, y):
+                if not cmp_equal(x, y, exact_ints=True):
                     rep.violation(f"C26:value_differs:{base_name}|{name}:{icls}:{cli_c15.diff_class(x, y)}", f"yq {prog!r}: {first_diff(x, y)}", replay)
                     return
     rep.count("agree.ok" if base[0] == "ok" else "agree.err")
